@@ -1,6 +1,7 @@
 import DoltVerif.Lemmas.Query
 import DoltVerif.Lemmas.QueryMerge
 import DoltVerif.Lemmas.QueryKey
+import DoltVerif.Model.QueryLeft
 /-!
 C26 — Dolt returns the same query results as the reference engine (partial by design).
 
@@ -319,16 +320,101 @@ theorem merge_join_eq_nlj (lk rk : Tuple → Cell) (left right : List Tuple)
     (mergeJoin lk rk (fun a b => keyEq (lk a) (rk b)) left right).Perm (nlj (fun a b => keyEq (lk a) (rk b)) left right) :=
   mergeJoin_perm lk rk left right hL hR
 
-/-- **not modelled** (kept as the full statement): the LEFT OUTER variant (`isLeftJoin`): every left
-row without an accepted match additionally yields one NULL-extended row.  The implementation violates
-it (known finding `mergejoin/left-outer-equal-left-keys-lose-lookahead`: after emitting the
-NULL-extended row of a left key whose successor compares equal, `Next` re-enters the compare stage
-and `fillMatchBuf` overwrites the look-ahead right row). -/
+-- ---------------------------------------------------------------- LEFT OUTER merge join (Model/QueryLeft.lean)
+
+/-- join filters of the form "SQL key equality AND an extra condition on the candidate" -/
+def okWith (lk rk : Tuple → Cell) (extra : Tuple → Tuple → Bool) (a b : Tuple) : Bool := keyEq (lk a) (rk b) && extra a b
+
+/-- what the LEFT OUTER merge join should satisfy: a permutation of the left outer nested-loop join -/
 def left_merge_join_eq_left_nlj_full : Prop :=
-  ∀ (impl : List Tuple → List Tuple → List (Tuple × Option Tuple)) (lk rk : Tuple → Cell) (left right : List Tuple),
-    (impl left right).Perm (left.flatMap (fun a =>
-      let ms := right.filter (fun b => keyEq (lk a) (rk b))
-      if ms.isEmpty then [(a, none)] else ms.map (fun b => (a, some b))))
+  ∀ (lk rk : Tuple → Cell) (extra : Tuple → Tuple → Bool) (left right : List Tuple),
+    SortedBy lk left → SortedBy rk right →
+    (leftMergeJoin lk rk (okWith lk rk extra) left right).Perm (leftNlj (okWith lk rk extra) left right)
+
+def witL : List Tuple := [[some 2, some 1], [some 2, some 47], [some 3, some 25]]
+def witR : List Tuple := [[some 2], [some 3]]
+def witExtra (_ b : Tuple) : Bool := headCell b == some 3
+
+/-- the state machine on the known witness: the match `(25, 3)` is lost — exactly what dolt returns -/
+theorem left_merge_join_witness :
+    leftMergeJoin headCell headCell (okWith headCell headCell witExtra) witL witR =
+      [([some 2, some 1], none), ([some 2, some 47], none), ([some 3, some 25], none)] ∧
+    leftNlj (okWith headCell headCell witExtra) witL witR =
+      [([some 2, some 1], none), ([some 2, some 47], none), ([some 3, some 25], some [some 3])] := by decide +kernel
+
+/-- **the full statement is false of the code that exists** (known finding
+`mergejoin/left-outer-equal-left-keys-lose-lookahead`; the witness is replayed on dolt by the harness). -/
+theorem left_merge_join_eq_left_nlj_false : ¬ left_merge_join_eq_left_nlj_full := by
+  intro h
+  have hp := h headCell headCell witExtra witL witR (by unfold SortedBy; decide) (by unfold SortedBy; decide)
+  rw [left_merge_join_witness.1, left_merge_join_witness.2] at hp
+  have hm := hp.mem_iff (a := (([some 3, some 25] : Tuple), some ([some 3] : Tuple)))
+  exact absurd (hm.mpr (by decide)) (by decide)
+
+/-- The hypothesis that excludes the defect, stated on the inputs: whenever two *adjacent* left rows
+compare equal on the join key, the first of them either has an accepted match on the right or there
+is no right row with that key at all.  (The defect needs: a left row whose candidates with an equal
+key are all rejected by the join filters, immediately followed by a left row with an equal key, a
+single right row with that key — empty look-ahead buffer — and a further right row, which
+`fillMatchBuf` then overwrites.) -/
+def NoUnmatchedDuplicate (lk rk : Tuple → Cell) (ok : Tuple → Tuple → Bool) (left right : List Tuple) : Prop :=
+  ∀ i a b, left[i]? = some a → left[i + 1]? = some b → ccmp (lk a) (lk b) = 0 →
+    (∃ r ∈ right, ok a r = true) ∨ (∀ r ∈ right, ccmp (lk a) (rk r) ≠ 0)
+
+/-- **not proved** (kept as the statement of the partial claim): under `NoUnmatchedDuplicate` the LEFT OUTER
+merge join is a permutation of the left outer nested-loop join.  (The resumable machine needs an
+invariant proof over `Next` calls that did not fit into this round; the statement is checked on the
+instances below, and the machine is compared with dolt — including the defective answers — by the harness.) -/
+def left_merge_join_partial_full : Prop :=
+  ∀ (lk rk : Tuple → Cell) (extra : Tuple → Tuple → Bool) (left right : List Tuple),
+    SortedBy lk left → SortedBy rk right → NoUnmatchedDuplicate lk rk (okWith lk rk extra) left right →
+    (leftMergeJoin lk rk (okWith lk rk extra) left right).Perm (leftNlj (okWith lk rk extra) left right)
+
+/-- the witness violates the hypothesis (it must) -/
+example : ¬ NoUnmatchedDuplicate headCell headCell (okWith headCell headCell witExtra) witL witR := by
+  intro h
+  have := h 0 [some 2, some 1] [some 2, some 47] rfl rfl (by decide)
+  rcases this with ⟨r, hr, hok⟩ | hno
+  · revert hok; revert r; decide
+  · exact hno [some 2] (by decide) (by decide)
+
+/-- a first general fact about the machine (all inputs): -/
+theorem lrun_exhaust (lk rk : Tuple → Cell) (ok : Tuple → Tuple → Bool) : ∀ (ls : List Tuple) (l : Tuple) (r : Option Tuple) (n : Nat),
+    ls.length < n →
+    lrun lk rk ok n ⟨ls, [], some l, r, none, [], 0, true, true⟩ = ls.map (fun a => (a, none))
+  | [], l, r, n, h => by
+    obtain ⟨m, rfl⟩ : ∃ m, n = m + 1 := ⟨n - 1, by simp at h; omega⟩
+    simp [lrun, lnext, exhaustLeftReturn]
+  | l' :: ls, l, r, n, h => by
+    obtain ⟨m, rfl⟩ : ∃ m, n = m + 1 := ⟨n - 1, by simp at h; omega⟩
+    simp only [lrun, lnext, exhaustLeftReturn, Option.isNone_some, Bool.false_eq_true, if_false, if_true, List.map_cons]
+    simp only [List.cons.injEq, true_and]
+    exact lrun_exhaust lk rk ok ls l' r m (by simp at h; omega)
+
+/-- with an empty right side every left row comes out once, NULL-extended, in order -/
+theorem left_merge_join_empty_right (lk rk : Tuple → Cell) (ok : Tuple → Tuple → Bool) (L : List Tuple) :
+    leftMergeJoin lk rk ok L [] = leftNlj ok L [] := by
+  have href : leftNlj ok L [] = L.map (fun a => (a, none)) := by
+    induction L with
+    | nil => rfl
+    | cons a as ih => simp only [leftNlj, List.flatMap_cons, List.filter_nil, List.isEmpty_nil, if_true, List.map_cons] at ih ⊢; rw [← ih]; rfl
+  rw [href]
+  cases L with
+  | nil => simp [leftMergeJoin, lrun, lnext, LSt.init]
+  | cons l ls =>
+    simp only [leftMergeJoin, LSt.init, List.length_cons, List.length_nil, Nat.zero_add, Nat.mul_one, lrun, lnext,
+      Option.isNone_none, if_true, exhaustLeftReturn, Bool.false_eq_true, if_false, List.map_cons]
+    simp only [List.cons.injEq, true_and]
+    exact lrun_exhaust lk rk ok ls l none (ls.length + 1 + 1) (by omega)
+
+
+/-- NULL keys, duplicates on both sides, unmatched rows on both sides, right side exhausted first -/
+example : leftMergeJoin headCell headCell (okWith headCell headCell (fun _ _ => true))
+    [[none, some 0], [some 1, some 1], [some 2, some 2], [some 2, some 3], [some 5, some 4], [some 9, some 5]]
+    [[none], [some 2, some 7], [some 2, some 8], [some 3], [some 5]] =
+    [([none, some 0], none), ([some 1, some 1], none), ([some 2, some 2], some [some 2, some 8]),
+     ([some 2, some 2], some [some 2, some 7]), ([some 2, some 3], some [some 2, some 8]),
+     ([some 2, some 3], some [some 2, some 7]), ([some 5, some 4], some [some 5]), ([some 9, some 5], none)] := by decide +kernel
 
 example : mergeJoin headCell headCell (fun a b => keyEq (headCell a) (headCell b))
     [[none, some 1], [some 1, some 2], [some 2, some 3], [some 2, some 4], [some 5, some 5]]
